@@ -36,7 +36,8 @@ RULES = {
     's': ('str', 1, 3, None, False), 'p': ('str', None, None, '[a-z]+', False),
     'li': ('list-int', 0, 2**31 - 1, 2, False), 'ls': ('list-str', 2, True), 'm': ('map-int', True),
     'inner': ('ref', ('default', 'other'), False), 'oinner': ('ref', ('default', 'other'), True),
-    'un': ('ref', ('default', 'numex', 'v'), False),
+    'un': ('ref', ('default', 'numex', 'v', 'viatree'), False),
+    'uc': ('ref', ('a', 'c'), True),           # void tags: own (c) and inherited from the parent union (a)
     'ts': ('text', True), 'byt': ('text', True),
 }
 TEMPLATE_VALUES = {'i': '0', 'u': '1', 'f': '1.5', 'b': 'true', 's': '"ab"', 'p': '"abc"', 'li': '[1]',
@@ -55,13 +56,13 @@ def oracle_for(field, present, v):
     kind = rule[0]
     if v is None:
         # "null can be used to mark that a nullable type is not present"
-        if field in ('oi', 'ls', 'm', 'oinner', 'ts', 'byt'):
+        if field in ('oi', 'ls', 'm', 'oinner', 'ts', 'byt', 'uc'):
             return 'accept'
         return 'reject'
     if isinstance(v, A.AstExampleRef):
         if kind != 'ref':
             return 'reject'
-        if field == 'un' and v.label == 'other':
+        if field in ('un', 'uc') and v.label == 'other':
             return 'unspec'               # the implicit example of the catch-all tag
         return 'accept' if v.label in rule[1] else 'reject'
     if kind == 'ref':
@@ -162,8 +163,9 @@ def _fidelity(struct, field, present, v):
             if field in ('inner', 'oinner'):
                 return dict(ex[field]) == inner[v.label]
             want = {'default': {'.tag': 'i', 'n': 1}, 'numex': {'.tag': 'num', 'num': 5}, 'v': {'.tag': 'v'},
-                    'other': {'.tag': 'other'}}[v.label]
-            return dict(ex[field]) == want
+                    'other': {'.tag': 'other'}, 'a': {'.tag': 'a'}, 'c': {'.tag': 'c'},
+                    'viatree': {'.tag': 'tr', 'tr': {'.tag': 'sub', 'name': 't', 'n': 1}}}[v.label]
+            return _plain(ex[field]) == want
         return ex[field] == v
     return check
 
@@ -281,13 +283,13 @@ def container_example(a: Union[None, bool, int, str], b: Union[None, bool, int, 
     return _decide(struct, field, True, v)
 
 
-LABELS = ['default', 'other', 'numex', 'v', 'zz', 'i']
-REF_FIELDS = ['inner', 'oinner', 'un', 'i', 'li']
+LABELS = ['default', 'other', 'numex', 'v', 'zz', 'i', 'a', 'c', 'bt', 'viatree']
+REF_FIELDS = ['inner', 'oinner', 'un', 'uc', 'i', 'li']
 
 
 @hx.harness(props=['C01', 'C02', 'C03', 'C10'], targets=_TG, items=lambda: [x.split('@')[0] for x in _accepting(['E.%s@ref' % f for f in REF_FIELDS])],
-            bound='example value that is a reference to a label from {default, other, numex, v, zz, i}, for struct / '
-                  'nullable struct / union / int / list typed fields', outside=_OUT, budget=(300, 900))
+            bound='example value that is a reference to a label from %s, for struct / nullable struct / union / child union '
+                  '(own and inherited void tags) / int / list typed fields' % LABELS, outside=_OUT, budget=(300, 900))
 def ref_example(k: int, present: bool) -> bool:
     """
     pre: 0 <= k < len(LABELS)
